@@ -1324,15 +1324,15 @@ def proximal_l1(space, lam=1, g=None):
 
         def _call(self, x, out):
             """Return ``self(x, out=out)``."""
+            if x is out:
+                # Handle aliased `x` and `out` (original `x` needed later)
+                x = x.copy()
+
             # diff = x - g
             if g is not None:
                 diff = x - g
             else:
-                if x is out:
-                    # Handle aliased `x` and `out` (original `x` needed later)
-                    diff = x.copy()
-                else:
-                    diff = x
+                diff = x
 
             # We write the operator as
             # x - (x - g) / max(|x - g| / sig*lam, 1)
@@ -1421,15 +1421,15 @@ def proximal_l1_l2(space, lam=1, g=None):
 
         def _call(self, x, out):
             """Return ``self(x, out=out)``."""
+            if x is out:
+                # Handle aliased `x` and `out` (original `x` needed later)
+                x = x.copy()
+
             # diff = x - g
             if g is not None:
                 diff = x - g
             else:
-                if x is out:
-                    # Handle aliased `x` and `out` (original `x` needed later)
-                    diff = x.copy()
-                else:
-                    diff = x
+                diff = x
 
             # We write the operator as
             # x - (x - g) / max(|x - g|_2 / sig*lam, 1)
